@@ -2,7 +2,7 @@
    Only ExtrOcamlBasic (bool, option, list, pairs, unit -> OCaml natives);
    Z, positive, N, nat stay extracted datatypes; no Extract Constant. *)
 From Coq Require Import Extraction ExtrOcamlBasic.
-From PV Require Import Base Heap Rng NND Diversify SearchGraph RPTree Search SparseOps Metrics OT Connect Alias Lifecycle Pickle.
+From PV Require Import Base Heap Rng NND Diversify SearchGraph RPTree Search SparseOps Metrics OT Connect Alias Lifecycle Pickle Transformer.
 Extraction Language OCaml.
 Set Extraction KeepSingleton.
 Extraction "../ocaml/model.ml"
@@ -23,6 +23,7 @@ Extraction "../ocaml/model.ml"
   Metrics.counts Metrics.m_hamming Metrics.m_matching Metrics.m_jaccard Metrics.m_dice Metrics.m_kulsinski
   Metrics.m_rogerstanimoto Metrics.m_sokalmichener Metrics.m_russellrao Metrics.m_sokalsneath Metrics.m_yule
   Alias.run Alias.init_state
+  Transformer.transform_row Transformer.nodupb
   Pickle.init_binding Pickle.load_binding
   Lifecycle.lrun Lifecycle.linit Lifecycle.invalidate
   Connect.rejection_sample Connect.conn_cert_chk Connect.sym_chk
